@@ -27,7 +27,7 @@ DT, DX = 512.0, 1024.0
 
 def gen_cases(ctx):
     rng = ctx.rng
-    out = []
+    out = [{"k": "warmdead", "adv": "RK2"}]
     n = 120 if ctx.quick else 1500
     for _ in range(n):
         jmax, imax = rng.randint(7, 14), rng.randint(7, 16)
@@ -112,6 +112,18 @@ def in_valid(x, y, lim):
 
 
 def eval_case(desc, ctx):
+    if desc["k"] == "warmdead":
+        # "a dead particle appears in no later record", across a warm start (oracle only): the particle killed in the
+        # first leg must not come back — under its identifier — in the files of the restarted run
+        import c08_impl
+
+        d = ctx.subdir("c09warm")
+        for f in d.glob("*"):
+            f.unlink()
+        diffs, pids = c08_impl.warm_pid_scenario(d, desc["adv"])
+        bad = [x for x in diffs if "pid" in x or "records" in x or "files" in x or "crash" in x]
+        return {"ints": None, "oracle": ("after a warm start the identifier of a dead particle is in later records: " + "; ".join(bad[:2])) if bad else None,
+                "nontrivial": ("warmdead", desc["adv"]), "kind": "warm-start-dead-stay-dead", "observed": {"pids_uninterrupted": pids}}
     if desc["k"] == "records":
         import c06
 
